@@ -58,6 +58,52 @@ impl Reopen for MemFile {
     }
 }
 
+/// In-memory file whose k-th read/seek (counted from the last `arm`) fails once with an I/O error.
+/// The control block is shared with the harness so that it can arm, disarm and count.
+#[derive(Default)]
+pub struct FaultCtl {
+    pub ops: std::sync::atomic::AtomicU64,
+    /// u64::MAX = disarmed
+    pub fail_at: std::sync::atomic::AtomicU64,
+    pub fired: std::sync::atomic::AtomicU64,
+}
+impl FaultCtl {
+    pub fn arm(&self, k: u64) {
+        use std::sync::atomic::Ordering::SeqCst;
+        self.ops.store(0, SeqCst);
+        self.fired.store(0, SeqCst);
+        self.fail_at.store(k, SeqCst);
+    }
+    pub fn disarm(&self) {
+        self.fail_at.store(u64::MAX, std::sync::atomic::Ordering::SeqCst);
+    }
+    fn step(&self) -> io::Result<()> {
+        use std::sync::atomic::Ordering::SeqCst;
+        let n = self.ops.fetch_add(1, SeqCst);
+        if n == self.fail_at.load(SeqCst) {
+            self.fired.fetch_add(1, SeqCst);
+            return Err(io::Error::new(io::ErrorKind::Other, "injected read fault"));
+        }
+        Ok(())
+    }
+}
+pub struct FaultyMem {
+    pub inner: MemFile,
+    pub ctl: Arc<FaultCtl>,
+}
+impl Read for FaultyMem {
+    fn read(&mut self, buf: &mut [u8]) -> io::Result<usize> {
+        self.ctl.step()?;
+        self.inner.read(buf)
+    }
+}
+impl Seek for FaultyMem {
+    fn seek(&mut self, to: SeekFrom) -> io::Result<u64> {
+        self.ctl.step()?;
+        self.inner.seek(to)
+    }
+}
+
 // ---------------------------------------------------------------------------------------------
 // C03
 
@@ -1019,9 +1065,20 @@ pub struct C05Case {
     /// spans are not monotone in their end and nest inside each other
     #[serde(default)]
     pub nested: bool,
+    /// reader-side fault histories: every read/seek of a query fails once, then the same reader
+    /// is queried again
+    #[serde(default)]
+    pub faults: bool,
 }
 
 pub struct C05;
+
+/// answer of one query for the fault histories: I/O error, or the comparison with the linear scan
+enum QOut {
+    IoErr(String),
+    Cmp(Result<(), String>),
+}
+
 
 fn c05_bed_q<R: bigtools::BBIFileRead>(
     rd: &mut BigBedRead<R>,
@@ -1066,6 +1123,176 @@ fn c05_wig_q<R: bigtools::BBIFileRead>(
     }
 }
 
+
+/// Reader-side fault histories (E4 on the read path): for a plain and a caching reader and every
+/// query of a small set, every read/seek issued by the query fails once; the failing call must
+/// return an error or the right answer, and afterwards the *same reader* must answer the same
+/// query and every whole-chromosome query correctly (or with an error) -- a reader that has
+/// reported an I/O error must not serve a truncated answer later.
+fn c05_fault_histories(c: &C05Case, bytes: &[u8], names: &[String], len: u32, items: &[Vec<(u32, u32)>], out: &mut Outcome) {
+    let mut queries: Vec<(usize, u32, u32)> = vec![];
+    for ci in 0..names.len() {
+        queries.push((ci, 0, len));
+        let m = items[ci].len() / 2;
+        let (a, b) = items[ci][m];
+        queries.push((ci, a, b));
+        queries.push((ci, b.saturating_sub(1), len));
+    }
+    // zoom queries are histories of their own on the bigWig files
+    for cached in [false, true] {
+        for zoom in [None, Some(2u32)] {
+            if zoom.is_some() && c.bed {
+                continue;
+            }
+            for &(qc, qs, qe) in &queries {
+                // one closure that runs a query on an existing reader
+                macro_rules! run_all {
+                    ($open:expr, $q:expr, $zq:expr) => {{
+                        // count the operations of the fault-free query
+                        let ctl = Arc::new(FaultCtl::default());
+                        ctl.disarm();
+                        let mut rd = $open(ctl.clone());
+                        ctl.arm(u64::MAX - 1);
+                        let first = if let Some(lv) = zoom { $zq(&mut rd, qc, qs, qe, lv) } else { $q(&mut rd, qc, qs, qe) };
+                        let nops = ctl.ops.load(std::sync::atomic::Ordering::SeqCst);
+                        match first {
+                            QOut::Cmp(Ok(())) => {}
+                            QOut::Cmp(Err(m)) => out.fail("index_search_differs_from_linear_scan", &[], m),
+                            QOut::IoErr(e) => out.fail("query_error", &[], format!("fault-free query failed: {}", e)),
+                        }
+                        out.count("fault_free_query_operations", nops);
+                        for k in 0..nops {
+                            let ctl = Arc::new(FaultCtl::default());
+                            ctl.disarm();
+                            let mut rd = $open(ctl.clone());
+                            ctl.arm(k);
+                            let r1 = if let Some(lv) = zoom { $zq(&mut rd, qc, qs, qe, lv) } else { $q(&mut rd, qc, qs, qe) };
+                            let fired = ctl.fired.load(std::sync::atomic::Ordering::SeqCst) > 0;
+                            ctl.disarm();
+                            out.count("reader_fault_histories", 1);
+                            match r1 {
+                                QOut::IoErr(_) => out.count("reader_faults_reported_as_error", 1),
+                                QOut::Cmp(Ok(())) => out.count(if fired { "reader_faults_absorbed_with_right_answer" } else { "reader_fault_not_reached" }, 1),
+                                QOut::Cmp(Err(m)) => out.fail(
+                                    "wrong_answer_under_read_fault",
+                                    &[],
+                                    format!("{} reader, operation {} of {} failed once: {}", if cached { "caching" } else { "plain" }, k, nops, m),
+                                ),
+                            }
+                            // the same reader afterwards: the same query, then every whole chromosome
+                            let mut later: Vec<(usize, u32, u32)> = vec![(qc, qs, qe)];
+                            for ci in 0..names.len() {
+                                later.push((ci, 0, len));
+                            }
+                            for (lc, ls, le) in later {
+                                match $q(&mut rd, lc, ls, le) {
+                                    QOut::Cmp(Ok(())) => out.count("queries_after_a_read_fault_right", 1),
+                                    QOut::IoErr(_) => out.count("queries_after_a_read_fault_error", 1),
+                                    QOut::Cmp(Err(m)) => out.fail(
+                                        "stale_state_after_read_error",
+                                        &[],
+                                        format!(
+                                            "{} reader, after operation {} of {}{} [{},{}) failed once: {}",
+                                            if cached { "caching" } else { "plain" },
+                                            k,
+                                            names[qc],
+                                            if zoom.is_some() { " (zoom query)" } else { "" },
+                                            qs,
+                                            qe,
+                                            m
+                                        ),
+                                    ),
+                                }
+                            }
+                        }
+                    }};
+                }
+                let mk = |ctl: Arc<FaultCtl>| FaultyMem { inner: MemFile::new(bytes), ctl };
+                if c.bed {
+                    let q = |rd: &mut dyn FnMut(&str, u32, u32) -> Result<Vec<Ent>, String>, ci: usize, s: u32, e: u32| -> QOut {
+                        match rd(&names[ci], s, e) {
+                            Err(e) => QOut::IoErr(e),
+                            Ok(g) => {
+                                let must: Vec<(u32, u32)> = items[ci].iter().filter(|(a, b)| *a < e && *b > s).cloned().collect();
+                                let may: Vec<(u32, u32)> = items[ci].iter().filter(|(a, b)| *a <= e && *b >= s).cloned().collect();
+                                let gg: Vec<(u32, u32)> = g.iter().map(|x| (x.0, x.1)).collect();
+                                let ok = gg.windows(2).all(|w| w[0].0 < w[1].0) && must.iter().all(|m| gg.contains(m)) && gg.iter().all(|x| may.contains(x));
+                                QOut::Cmp(if ok { Ok(()) } else { Err(format!("bigBed {} [{},{}): got {:?}, linear scan must {:?}", names[ci], s, e, gg, must)) })
+                            }
+                        }
+                    };
+                    if cached {
+                        run_all!(
+                            |ctl| BigBedRead::open(mk(ctl)).unwrap().cached(),
+                            |rd: &mut BigBedRead<_>, ci, s, e| q(&mut |n, s, e| rd.get_interval(n, s, e).map_err(|e| format!("{}", e)).and_then(collect_bed), ci, s, e),
+                            |_rd: &mut BigBedRead<_>, _ci: usize, _s: u32, _e: u32, _lv: u32| QOut::Cmp(Ok(()))
+                        );
+                    } else {
+                        run_all!(
+                            |ctl| BigBedRead::open(mk(ctl)).unwrap(),
+                            |rd: &mut BigBedRead<_>, ci, s, e| q(&mut |n, s, e| rd.get_interval(n, s, e).map_err(|e| format!("{}", e)).and_then(collect_bed), ci, s, e),
+                            |_rd: &mut BigBedRead<_>, _ci: usize, _s: u32, _e: u32, _lv: u32| QOut::Cmp(Ok(()))
+                        );
+                    }
+                } else {
+                    let q = |g: Result<Vec<Triple>, String>, ci: usize, s: u32, e: u32| -> QOut {
+                        match g {
+                            Err(e) => QOut::IoErr(e),
+                            Ok(g) => {
+                                let want: Vec<(u32, u32)> = items[ci].iter().filter(|(a, b)| *a < e && *b > s).map(|(a, b)| ((*a).max(s), (*b).min(e))).collect();
+                                let gg: Vec<(u32, u32)> = g.iter().map(|x| (x.0, x.1)).collect();
+                                QOut::Cmp(if gg == want { Ok(()) } else { Err(format!("bigWig {} [{},{}): got {:?}, linear scan {:?}", names[ci], s, e, gg, want)) })
+                            }
+                        }
+                    };
+                    // zoom answers are compared with the fault-free answer of a fresh plain reader
+                    let zref = |ci: usize, s: u32, e: u32, lv: u32| -> Vec<(u32, u32)> {
+                        let mut r = BigWigRead::open(Cursor::new(bytes.to_vec())).unwrap();
+                        match r.get_zoom_interval(&names[ci], s, e, lv) {
+                            Ok(it) => it.filter_map(|z| z.ok()).map(|z| (z.start, z.end)).collect(),
+                            Err(_) => vec![],
+                        }
+                    };
+                    let zq = |g: Result<Vec<(u32, u32)>, String>, ci: usize, s: u32, e: u32, lv: u32| -> QOut {
+                        match g {
+                            Err(e) => QOut::IoErr(e),
+                            Ok(g) => {
+                                let want = zref(ci, s, e, lv);
+                                QOut::Cmp(if g == want { Ok(()) } else { Err(format!("bigWig zoom {} {} [{},{}): got {:?}, fault-free {:?}", lv, names[ci], s, e, g, want)) })
+                            }
+                        }
+                    };
+                    macro_rules! zcollect {
+                        ($rd:expr, $ci:expr, $s:expr, $e:expr, $lv:expr) => {
+                            $rd.get_zoom_interval(&names[$ci], $s, $e, $lv).map_err(|e| format!("{}", e)).and_then(|it| {
+                                let mut v = vec![];
+                                for z in it {
+                                    let z = z.map_err(|e| format!("{}", e))?;
+                                    v.push((z.start, z.end));
+                                }
+                                Ok(v)
+                            })
+                        };
+                    }
+                    if cached {
+                        run_all!(
+                            |ctl| BigWigRead::open(mk(ctl)).unwrap().cached(),
+                            |rd: &mut BigWigRead<_>, ci: usize, s, e| q(rd.get_interval(&names[ci], s, e).map_err(|e| format!("{}", e)).and_then(collect_wig), ci, s, e),
+                            |rd: &mut BigWigRead<_>, ci: usize, s, e, lv| zq(zcollect!(rd, ci, s, e, lv), ci, s, e, lv)
+                        );
+                    } else {
+                        run_all!(
+                            |ctl| BigWigRead::open(mk(ctl)).unwrap(),
+                            |rd: &mut BigWigRead<_>, ci: usize, s, e| q(rd.get_interval(&names[ci], s, e).map_err(|e| format!("{}", e)).and_then(collect_wig), ci, s, e),
+                            |rd: &mut BigWigRead<_>, ci: usize, s, e, lv| zq(zcollect!(rd, ci, s, e, lv), ci, s, e, lv)
+                        );
+                    }
+                }
+            }
+        }
+    }
+}
+
 impl Check for C05 {
     type Case = C05Case;
     fn id(&self) -> &'static str {
@@ -1080,20 +1307,33 @@ impl Check for C05 {
                     if nchrom > n {
                         continue;
                     }
-                    v.push(C05Case { n, b, nchrom, bed: false, nested: false });
+                    v.push(C05Case { n, b, nchrom, bed: false, nested: false, faults: false });
                     if nchrom == 1 || n % 3 == 0 {
-                        v.push(C05Case { n, b, nchrom, bed: true, nested: false });
+                        v.push(C05Case { n, b, nchrom, bed: true, nested: false, faults: false });
                     }
                     if nchrom == 1 || n % 3 == 1 {
-                        v.push(C05Case { n, b, nchrom, bed: true, nested: true });
+                        v.push(C05Case { n, b, nchrom, bed: true, nested: true, faults: false });
                     }
                 }
             }
         }
         // a few large fan-outs so that node counts near the u16 child count are not special
-        v.push(C05Case { n: 300, b: 256, nchrom: 2, bed: false, nested: false });
-        v.push(C05Case { n: 1000, b: 10, nchrom: 3, bed: false, nested: false });
-        v.push(C05Case { n: 300, b: 7, nchrom: 2, bed: true, nested: true });
+        v.push(C05Case { n: 300, b: 256, nchrom: 2, bed: false, nested: false, faults: false });
+        v.push(C05Case { n: 1000, b: 10, nchrom: 3, bed: false, nested: false, faults: false });
+        v.push(C05Case { n: 300, b: 7, nchrom: 2, bed: true, nested: true, faults: false });
+        // reader-side fault histories on trees of 1-4 levels
+        let fns: &[u32] = if tier == Tier::Quick { &[1, 2, 3, 5, 9] } else { &[1, 2, 3, 4, 5, 8, 9, 17, 28] };
+        for &n in fns {
+            for b in [2u32, 3] {
+                for nchrom in [1u32, 2] {
+                    if nchrom > n {
+                        continue;
+                    }
+                    v.push(C05Case { n, b, nchrom, bed: false, nested: false, faults: true });
+                    v.push(C05Case { n, b, nchrom, bed: true, nested: true, faults: true });
+                }
+            }
+        }
         Box::new(v.into_iter())
     }
     fn run(&self, c: &C05Case, out: &mut Outcome) {
@@ -1199,6 +1439,13 @@ impl Check for C05 {
                     format!("main index has {} levels, {} blocks with fan-out {} need {}", dec.main.levels, c.n, c.b, levels),
                 );
             }
+        }
+        if c.faults {
+            let r = guarded(|| c05_fault_histories(c, &bytes, &names, len, &file_items, out));
+            if let Err(p) = r {
+                out.fail("read_panicked", &[], p);
+            }
+            return;
         }
         // (2) every boundary query = linear scan
         let r = guarded(|| {
